@@ -481,7 +481,7 @@ func (s *c08CacheSys) Reset() {
 }
 func (s *c08CacheSys) Close() { s.w.Close() }
 func (s *c08CacheSys) Ops() []string {
-	return []string{"request", "tick(1m)", "tick(4m)", "tick(5m)", "tick(6m)", "demote", "promote", "dir(down)", "dir(up)"}
+	return []string{"request", "request-profile", "tick(1m)", "tick(4m)", "tick(5m)", "tick(6m)", "demote", "promote", "dir(down)", "dir(up)"}
 }
 func (s *c08CacheSys) Canon() string {
 	cached, valid := s.w.state.isAdminCache.Get("gadmin")
@@ -539,7 +539,7 @@ func (s *c08CacheSys) Apply(op string) (string, string, string) {
 		}
 		c08Dir.Down = false
 		return "ok", "", ""
-	case "request":
+	case "request", "request-profile":
 		// when must the answer be current?  The directory answers now, and the
 		// last evaluation against an answering directory is 5 minutes old or
 		// older (or never happened).
@@ -549,7 +549,11 @@ func (s *c08CacheSys) Apply(op string) (string, string, string) {
 		mustBeCurrent := !c08Dir.Down && vclock.Now().Sub(s.upSince) >= 5*time.Minute && vclock.Now().Sub(s.since) >= 5*time.Minute
 		calls := c08Dir.Calls
 		ck := s.w.vfCookie("gadmin", AuthTypePassword)
-		resp := s.w.Do(vfReq{Method: "GET", Path: usersPath, Cookies: []*http.Cookie{ck}}.Build())
+		path := usersPath
+		if op == "request-profile" {
+			path = profilePath + "alice" // another user's profile: administrators only
+		}
+		resp := s.w.Do(vfReq{Method: "GET", Path: path, Cookies: []*http.Cookie{ck}}.Build())
 		evaluated := c08Dir.Calls > calls
 		if evaluated && !c08Dir.Down {
 			s.lastUp = vclock.Now()
@@ -562,7 +566,7 @@ func (s *c08CacheSys) Apply(op string) (string, string, string) {
 			if s.member {
 				kind = "promotion-not-honoured"
 			}
-			return obs, "C08|admin-cache|IsAdminUser|" + kind, fmt.Sprintf("directory has answered and membership has been stable for >= 5 min, membership=%v but admin operation granted=%v", s.member, granted)
+			return obs, "C08|admin-cache|IsAdminUser|" + kind + map[string]string{"request": "", "request-profile": "|profile-view"}[op], fmt.Sprintf("directory has answered and membership has been stable for >= 5 min, membership=%v but admin operation (%s) granted=%v", s.member, path, granted)
 		}
 		return obs, "", ""
 	default:
@@ -577,7 +581,7 @@ func init() {
 	vfRegister(&vfeng.Check{
 		ID:    "C08",
 		Level: "model_checking",
-		Rule:  "(a) exhaustive product web-UI requirement {[password],[U2F],[TOTP,U2F]} x actor (two plain users, admin by name, admin by group, automation admin, automation user, name-prefix of the admin) x credential (cookie at password/+TOTP/+VIP/+U2F/FIDO2-only level, keymaster client certificate, basic-auth) x operation (U2F and TOTP token Update/Disable/Enable/Delete, U2F register request/response with a real soft token, WebAuthn begin, TOTP generate, profile view, users list, add/delete user, bootstrap OTP, mint for automation/non-automation/admin name) x target (self, other, an administrator, non-existent, empty, case variant) x token index (own, other kind, other user's, missing, negative, overflow) on the real handlers with before/after row digests; (a') with normalisation disabled, the accounts Admin and ADMIN (admin_users lists admin) on 7 administrative operations after a real login; (c) bootstrap OTPs issued by the login path: {enable_bootstrapotp} x {allow_self_service_bootstrap_otp} x {mail sender} x {no device, TOTP device, had a device} x {form, basic, html form}: nothing is stored or mailed unless the operator enabled self-service; (b) BFS with canonical-state deduplication over {admin request, tick 1/4/5/6 min, demote, promote, directory down/up} for a group-admin on the real IsAdminUser/admincache path",
+		Rule:  "(a) exhaustive product web-UI requirement {[password],[U2F],[TOTP,U2F]} x actor (two plain users, admin by name, admin by group, automation admin, automation user, name-prefix of the admin) x credential (cookie at password/+TOTP/+VIP/+U2F/FIDO2-only level, keymaster client certificate, basic-auth) x operation (U2F and TOTP token Update/Disable/Enable/Delete, U2F register request/response with a real soft token, WebAuthn begin, TOTP generate, profile view, users list, add/delete user, bootstrap OTP, mint for automation/non-automation/admin name) x target (self, other, an administrator, non-existent, empty, case variant) x token index (own, other kind, other user's, missing, negative, overflow) on the real handlers with before/after row digests; (a') with normalisation disabled, the accounts Admin and ADMIN (admin_users lists admin) on 7 administrative operations after a real login; (c) bootstrap OTPs issued by the login path: {enable_bootstrapotp} x {allow_self_service_bootstrap_otp} x {mail sender} x {no device, TOTP device, had a device} x {form, basic, html form}: nothing is stored or mailed unless the operator enabled self-service; (b) BFS with canonical-state deduplication over {admin request (user list, another user's profile), tick 1/4/5/6 min, demote, promote, directory down/up} for a group-admin on the real IsAdminUser/admincache path",
 		Assumptions: []string{"the reference decision is written from the statement: self-service needs a session at the web-UI level; other users' tokens need admin + U2F bit; user administration needs admin; minting needs (automation) admin and an automation identity", "while the directory does not answer the cache may keep its last value"},
 		Shards: func(tier string) int { return 16 },
 		Run: func(c *vfeng.Ctx) {
